@@ -159,7 +159,8 @@ def nondefault_opts(spec):
 
 
 SHAPES = [(14, 5), (9, 3), (12, 4), (7, 3)]          # three chunks each
-VALUE_FAULTS = [("nan", "ra"), ("nan", "dec"), ("inf", "w"), ("nan", "z"), ("neginf", "w"), ("inf", "z"), ("nan", "w"), ("inf", "dec")]
+VALUE_FAULTS = [("nan", "ra"), ("nan", "dec"), ("inf", "w"), ("nan", "z"), ("neginf", "w"), ("inf", "z"), ("nan", "w"), ("inf", "dec"),
+                ("objnone", "dec"), ("objnone", "w"), ("objnan", "ra"), ("objnone", "z")]     # the missing value inside a column of python objects
 OVER_SHAPES = [(14, 5), (12, 4), (23, 5), (17, 4), (9, 3)]   # three to five chunks
 OVER_FAULTS = ["value", "worker", "unequal", "id"]
 OLD_SIZES = ["catalog_fewer", "catalog_same", "catalog_more"]
@@ -655,7 +656,7 @@ def scenario(spec):
     k = f["kind"]
     early = spec["patch"] == "none"
     fault = None
-    if k in ("nan", "inf", "neginf"):
+    if k in ("nan", "inf", "neginf", "objnone", "objnan"):
         fault = ("InReader", f["chunk"], "NonFinite")
     elif k == "unequal":
         if spec["source"] == "hdf5":
